@@ -2,6 +2,11 @@ import RactorModel.Lemmas.RegistryView
 import RactorModel.Lemmas.RegistryConcEv
 import RactorModel.Extracted
 import RactorModel.Lemmas.PidRegistryView
+import RactorModel.Lemmas.RegistryConcPid
+import RactorModel.Lemmas.RegistryThreads
+import RactorModel.Lemmas.RegistryWindow
+import RactorModel.Lemmas.RegistryThreadsSim
+import RactorModel.Lemmas.RegistryThreadsEntry
 
 /-!
 # C10 — a name maps to at most one live actor and is released on exit
@@ -810,3 +815,349 @@ end C10
 #print axioms C10.pid_exiting_monitor_removed
 #print axioms C10.pid_oracle_step
 #print axioms C10.pid_oracle_hist
+
+/-!
+# Round 4, wave 2 — pid analogues of the name clauses (`Reg2`), and SEVERAL `set_status` callers per cell (`Reg3`)
+
+(1) `Reg2` has one program counter per actor, so two overlapping `set_status` calls on one cell are skipped by
+construction and `Reg2.Ordered` ("the status word is ≥ Stopping when `Stopped` is published") understates what
+clause 5 needs.  `Reg3` (`Model/RegistryThreads.lean`) gives every (cell, thread) pair its own program counter
+inside `set_status`: a call that loses the election returns at once, also while the elected caller is still in
+its cleanup block.  Results: `Reg2.Ordered` read literally, and even "the caller's own `set_status(Stopping)` has
+returned", are NOT enough with two callers (`status_order_not_enough_with_two_callers`,
+`own_order_not_enough_with_two_callers`, both `decide`d counterexamples); the discipline the code base really
+follows (`Reg3.Disc`: all `≥ Stopping` publishes on a local cell come from one thread of control, `Stopped` after
+that thread's own `Stopping` call returned) is enough (`whereIs_sound_threads`, `name_free_after_exit_threads`,
+`wherePid_sound_threads`); the weakest hypothesis is characterised exactly (`weakest_hypothesis_exact`).
+(2) explicit pid analogues of clauses 1/4/5/6 on `Reg2`: `wherePid_sound_conc`, `pid_free_after_exit_conc`,
+`pid_visible_while_running`, `wherePid_unsound_without_caller_order`.
+-/
+
+namespace C10
+
+/-! ### (2) pid lookup, model `Reg2` -/
+
+/-- clause 8 ↔ clauses 1 and 5 for pids: whatever `where_is_pid(a)` returns is the cell `a` itself (a pid maps to
+at most one cell), it is local, its `register_pid` has succeeded, it has not run its own `unregister_pid`, and —
+under the caller order — its `wait()` has not returned -/
+theorem wherePid_sound_conc (ops : List Reg2.Op) (hord : Reg2.Ordered Reg2.init ops = true) (a b : Nat)
+    (h : Reg2.whereIsPid (Reg2.run Reg2.init ops) a = some b) :
+    b = a ∧ ((Reg2.run Reg2.init ops).act a).remote = false ∧
+    Reg2.spawned ((Reg2.run Reg2.init ops).act a) = true ∧ Reg2.pidHeld ((Reg2.run Reg2.init ops).act a) = true ∧
+    ((Reg2.run Reg2.init ops).act a).status ≠ Reg2.stopped := by
+  have I := conc_invariant ops
+  have hp : (Reg2.run Reg2.init ops).pids a = true := by
+    cases hc : (Reg2.run Reg2.init ops).pids a with
+    | true => rfl
+    | false => simp [Reg2.whereIsPid, hc] at h
+  have hb : b = a := by simp [Reg2.whereIsPid, hp] at h; exact h.symm
+  have hh : Reg2.pidHeld ((Reg2.run Reg2.init ops).act a) = true := by rw [← I.pid a]; exact hp
+  have hl : ((Reg2.run Reg2.init ops).act a).remote = false := by
+    simp only [Reg2.pidHeld, Bool.and_eq_true, Bool.not_eq_eq_eq_not, Bool.not_true] at hh; exact hh.1
+  refine ⟨hb, hl, ?_, hh, ?_⟩
+  · have hh' := hh
+    simp only [Reg2.pidHeld, hl] at hh'
+    simp only [Reg2.spawned, hl]
+    cases hpc : ((Reg2.run Reg2.init ops).act a).pc <;> simp_all
+  · intro hs
+    have := Reg2.OInvP.run Reg2.RInv.init Reg2.OInvP.init ops hord a hs
+    rw [hh] at this; cases this
+
+/-- clause 6 for pids: once `wait()` has returned the pid is released: `where_is_pid` answers `None` and
+`get_all_pids` does not list it -/
+theorem pid_free_after_exit_conc (ops : List Reg2.Op) (hord : Reg2.Ordered Reg2.init ops = true) (a : Nat)
+    (hs : ((Reg2.run Reg2.init ops).act a).status = Reg2.stopped) :
+    Reg2.whereIsPid (Reg2.run Reg2.init ops) a = none ∧ a ∉ Reg2.allPids (Reg2.run Reg2.init ops) := by
+  have h1 := Reg2.OInvP.run Reg2.RInv.init Reg2.OInvP.init ops hord a hs
+  have h2 : (Reg2.run Reg2.init ops).pids a = false := by rw [(conc_invariant ops).pid a]; exact h1
+  refine ⟨by simp [Reg2.whereIsPid, h2], ?_⟩
+  intro hm
+  simp only [Reg2.allPids, List.mem_filter] at hm
+  rw [h2] at hm; cases hm.2
+
+/-- clause 4 for pids (no hypothesis): from the return of `register_pid` until the cell begins to stop,
+`where_is_pid` returns it -/
+theorem pid_visible_while_running (ops : List Reg2.Op) (a : Nat)
+    (hpc : ((Reg2.run Reg2.init ops).act a).pc = .live) (hl : ((Reg2.run Reg2.init ops).act a).remote = false)
+    (hst : ((Reg2.run Reg2.init ops).act a).status < Reg2.stopping) :
+    Reg2.whereIsPid (Reg2.run Reg2.init ops) a = some a := by
+  have h := (conc_invariant ops).pid a
+  have : (Reg2.run Reg2.init ops).pids a = true := by rw [h]; simp [Reg2.pidHeld, hpc, hl, hst]
+  simp [Reg2.whereIsPid, this]
+
+/-- … and without the caller order the pid lookup returns a cell whose `wait()` has returned -/
+theorem wherePid_unsound_without_caller_order :
+    let s := Reg2.run Reg2.init [.new 0 none, .regPid 0, .publish 0 2, .publish 0 6]
+    Reg2.whereIsPid s 0 = some 0 ∧ (s.act 0).status = Reg2.stopped := by
+  decide
+
+/-- non-vacuity of the pid clauses: an ordered run in which the pid is found while the actor runs, and is gone —
+from `where_is_pid` and from `get_all_pids` — once it is Stopped -/
+example :
+    let pre : List Reg2.Op := [.new 0 none, .regPid 0, .publish 0 2]
+    let ops := pre ++ [.publish 0 5, .bstep 0, .bstep 0, .bstep 0, .bstep 0, .publish 0 5, .publish 0 6]
+    Reg2.Ordered Reg2.init ops = true ∧ Reg2.whereIsPid (Reg2.run Reg2.init pre) 0 = some 0 ∧
+    ((Reg2.run Reg2.init ops).act 0).status = 6 ∧ Reg2.whereIsPid (Reg2.run Reg2.init ops) 0 = none ∧
+    Reg2.allPids (Reg2.run Reg2.init ops) = [] := by decide
+
+/-! ### (1) several `set_status` callers per cell, model `Reg3` -/
+
+/-- the invariant of the threaded model, for every interleaving and whatever the callers do -/
+theorem threads_invariant (ops : List Reg3.Op) : Reg3.TInv (Reg3.run Reg3.init ops) := Reg3.TInv.init.run ops
+
+/-- the election of `set_status` (`status >= Stopping && previous_status < Stopping` on the result of one
+`fetch_max`) picks at most one call per cell, ever: two threads are never both inside the cleanup block of one
+cell, and the cell is `≥ Stopping` while one is -/
+theorem cleanup_elected_once_threads (ops : List Reg3.Op) (a t t' : Nat) (r r' : List Reg2.Stmt) (st st' : Nat)
+    (h : (Reg3.run Reg3.init ops).thr a t = .blk r st) (h' : (Reg3.run Reg3.init ops).thr a t' = .blk r' st') :
+    t = t' ∧ Reg2.stopping ≤ ((Reg3.run Reg3.init ops).cell a).status := by
+  have I := threads_invariant ops
+  have e := (I.blkEl a t r st h).1
+  have e' := (I.blkEl a t' r' st' h').1
+  rw [e] at e'
+  refine ⟨Option.some.inj e', (I.elected a).2 ?_⟩
+  rw [e]; simp
+
+/-- clause 5 with several callers, from the discipline of the code base (`Reg3.disc`): `where_is` never returns
+a cell whose `wait()` has returned -/
+theorem whereIs_sound_threads (ops : List Reg3.Op) (hd : Reg3.Disc Reg3.init ops = true) (n a : Nat)
+    (h : Reg3.whereIs (Reg3.run Reg3.init ops) n = some a) :
+    ((Reg3.run Reg3.init ops).cell a).status ≠ Reg2.stopped :=
+  Reg3.sound_of_dinv (threads_invariant ops) (Reg3.DInv.run Reg3.TInv.init Reg3.DInv.init ops hd) n a h
+
+/-- clause 6 with several callers: once every cell that carries the name is Stopped, the name is free -/
+theorem name_free_after_exit_threads (ops : List Reg3.Op) (hd : Reg3.Disc Reg3.init ops = true) (n : Nat)
+    (hall : ∀ a, ((Reg3.run Reg3.init ops).cell a).name = some n →
+      ((Reg3.run Reg3.init ops).cell a).status = Reg2.stopped) :
+    Reg3.whereIs (Reg3.run Reg3.init ops) n = none := by
+  cases h : Reg3.whereIs (Reg3.run Reg3.init ops) n with
+  | none => rfl
+  | some a =>
+    exact absurd (hall a ((threads_invariant ops).owner n a h).1) (whereIs_sound_threads ops hd n a h)
+
+/-- the pid analogue with several callers: `where_is_pid` returns the cell itself, local, not Stopped; a Stopped
+local cell is not in the pid table -/
+theorem wherePid_sound_threads (ops : List Reg3.Op) (hd : Reg3.Disc Reg3.init ops = true) (a b : Nat)
+    (h : Reg3.whereIsPid (Reg3.run Reg3.init ops) a = some b) :
+    b = a ∧ ((Reg3.run Reg3.init ops).cell a).remote = false ∧
+    ((Reg3.run Reg3.init ops).cell a).status ≠ Reg2.stopped := by
+  have hp : (Reg3.run Reg3.init ops).pids a = true := by
+    cases hc : (Reg3.run Reg3.init ops).pids a with
+    | true => rfl
+    | false => simp [Reg3.whereIsPid, hc] at h
+  have hb : b = a := by simp [Reg3.whereIsPid, hp] at h; exact h.symm
+  exact ⟨hb, ((threads_invariant ops).pidOwner a hp).1,
+    Reg3.pid_sound_of_dinv (threads_invariant ops) (Reg3.DInv.run Reg3.TInv.init Reg3.DInv.init ops hd) a hp⟩
+
+/-- `Reg2.Ordered` read literally ("`Stopped` is published on a cell whose status word is ≥ Stopping") is not
+enough as soon as two threads call `set_status` on one cell: thread 0 is elected and still inside its block,
+thread 1 publishes `Stopped` -/
+theorem status_order_not_enough_with_two_callers :
+    let ops : List Reg3.Op := [.new 0 (some 7), .regName 0, .regPid 0, .publish 0 0 2, .publish 0 0 5, .publish 0 1 6]
+    Reg3.All Reg3.statusOrdered Reg3.init ops = true ∧
+    Reg3.whereIs (Reg3.run Reg3.init ops) 7 = some 0 ∧ ((Reg3.run Reg3.init ops).cell 0).status = Reg2.stopped ∧
+    Reg3.whereIsPid (Reg3.run Reg3.init ops) 0 = some 0 := by
+  decide
+
+/-- … and neither is "the caller's OWN `set_status(Stopping)` has returned" (the order of the statements of
+`ActorLifecycleGuard::cleanup` alone): the second caller's `Stopping` loses the election and returns at once -/
+theorem own_order_not_enough_with_two_callers :
+    let ops : List Reg3.Op := [.new 0 (some 7), .regName 0, .regPid 0, .publish 0 0 2, .publish 0 0 5, .publish 0 1 5, .publish 0 1 6]
+    Reg3.All Reg3.ownOrdered Reg3.init ops = true ∧ Reg3.All Reg3.statusOrdered Reg3.init ops = true ∧
+    Reg3.Disc Reg3.init ops = false ∧
+    Reg3.whereIs (Reg3.run Reg3.init ops) 7 = some 0 ∧ ((Reg3.run Reg3.init ops).cell 0).status = Reg2.stopped := by
+  decide
+
+/-- the precise weakest hypothesis: clause 5 holds in every state of a run iff every `set_status(Stopped)` that
+takes effect finds the cell's name entry already removed -/
+theorem weakest_hypothesis_exact (ops : List Reg3.Op) :
+    Reg3.SoundAlong Reg3.init ops ↔ Reg3.Weakest Reg3.init ops :=
+  ⟨Reg3.weakest_of_soundAlong Reg3.TInv.init ops,
+   Reg3.soundAlong_of_weakest Reg3.TInv.init (by intro n a h; simp [Reg3.init] at h) ops⟩
+
+/-- the discipline of the code base implies the weakest hypothesis (and is strictly stronger: it is a property
+of the program text, `Weakest` one of the run) -/
+theorem disc_implies_weakest (ops : List Reg3.Op) (hd : Reg3.Disc Reg3.init ops = true) :
+    Reg3.Weakest Reg3.init ops := by
+  refine (weakest_hypothesis_exact ops).1 ?_
+  have key : ∀ (s : Reg3.State) (ops : List Reg3.Op), Reg3.TInv s → Reg3.DInv s → Reg3.Disc s ops = true →
+      Reg3.SoundAlong s ops := by
+    intro s ops
+    induction ops generalizing s with
+    | nil => intro h d _; exact Reg3.sound_of_dinv h d
+    | cons op ops ih =>
+      intro h d hd
+      simp only [Reg3.Disc, Reg3.All, Bool.and_eq_true] at hd
+      exact ⟨Reg3.sound_of_dinv h d, ih (Reg3.step s op) (h.step op) (d.step h op hd.1) hd.2⟩
+  exact key _ _ Reg3.TInv.init Reg3.DInv.init hd
+
+/-- Reg2's structural assumption made explicit: if every `set_status` call on a cell comes from ONE thread, the
+order of that thread's own calls (`Stopped` after its `Stopping` has returned — the text of `cleanup`) IS the
+discipline; so clause 5/6 and their pid analogues hold under "one caller + own order" -/
+theorem one_caller_own_order_is_enough (ops : List Reg3.Op) (h1 : ops.all Reg3.single = true)
+    (h2 : Reg3.All Reg3.ownOrdered Reg3.init ops = true) :
+    Reg3.Disc Reg3.init ops = true ∧ Reg3.Sound (Reg3.run Reg3.init ops) := by
+  have hd := Reg3.disc_of_single_run Reg3.SInv.init ops h1 h2
+  exact ⟨hd, fun n a h => whereIs_sound_threads ops hd n a h⟩
+
+/-- E-SRC: the discipline `Reg3.disc` for the source text.  `set_status(Stopping)` has exactly three call sites:
+`ActorLifecycleGuard::cleanup` and the end of `processing_loop` (Send and thread-local); `set_status(Stopped)` on
+a local cell only `cleanup` (`stopped_call_sites_match_source`; the other site is for a remote cell, which owns no
+registry entry — `unregister_guarded_by_is_local`).  `cleanup` is called only by the guard's `finish` and `drop`,
+the guard is not `Clone` (one owner), and `start` runs `processing_loop(..).await` and `lifecycle.finish(evt)`
+back to back in the one task it spawns (before the spawn the guard lives in `start`'s own frame): every
+`≥ Stopping` publish on a local cell is made by the thread of control that owns the cell's guard, and `Stopped`
+comes last in `cleanup`, after its own `set_status(Stopping)` returned -/
+theorem stopping_call_sites_match_source :
+    Extracted.stoppingCallSites = ["actor.rs:cleanup", "actor.rs:processing_loop", "inner.rs:processing_loop"] ∧
+    Extracted.cleanupCallers = ["finish", "drop"] ∧ Extracted.lifecycleGuardIsClone = false ∧
+    Extracted.loopThenFinishSameTask = [true, true] ∧
+    Extracted.cleanupOrder.head? = some "set_status:Stopping" ∧
+    Extracted.cleanupOrder.getLast? = some "set_status:Stopped" := by decide
+
+/-- non-vacuity: a run that obeys the discipline with two threads on one cell (thread 1 publishes `Running`
+while thread 0 stops the cell); same-name constructors lose while the entry is held (by the stopping cell, then\nby a constructor that is rolled back), a successor takes the name after the exit -/
+example :
+    let ops : List Reg3.Op := [.new 0 (some 7), .regName 0, .regPid 0, .publish 0 1 2, .publish 0 0 5, .publish 0 1 4,
+      .bstep 0 0, .bstep 0 0, .new 1 (some 7), .regName 1, .bstep 0 0, .bstep 0 0, .publish 0 0 5, .publish 0 0 6,
+      .new 2 (some 7), .regName 2, .regPidFail 2, .new 3 (some 7), .regName 3, .rollback 2, .new 4 (some 7), .regName 4,
+      .regPid 4]
+    Reg3.Disc Reg3.init ops = true ∧ Reg3.whereIs (Reg3.run Reg3.init ops) 7 = some 4 ∧
+    ((Reg3.run Reg3.init ops).cell 0).status = 6 ∧ ((Reg3.run Reg3.init ops).cell 1).cons = .failed ∧
+    ((Reg3.run Reg3.init ops).cell 3).cons = .failed ∧ ((Reg3.run Reg3.init ops).cell 2).cons = .failed ∧
+    Reg3.whereIsPid (Reg3.run Reg3.init ops) 0 = none := by decide
+
+
+/-! ### (3) the window ops of the E-THR replay (`Model/RegistryWindow.lean`) against the atomic `register` -/
+
+section
+open Registry
+
+/-- the two halves the cluster E-THR engine logs when a random schedule leaves a constructor parked at
+`new.reg_pid` (`regname k n` = `regNameOnly`, `regpid k` = `regPidOnly`) compose, on every reachable state, to the
+atomic `register` op all the `Model/Registry` theorems are about — same state, same answer, same pid events; what
+may happen BETWEEN the halves is the subject of `Reg2` (`name_without_pid_window`) and `Reg3` -/
+theorem window_halves_compose (ops : List Registry.Op) (a n : Nat)
+    (hok : (step false (run false init ops) (.register a n)).2 = .ok) :
+    regPidOnly (regNameOnly (run false init ops) a n).1 a = ((step false (run false init ops) (.register a n)).1, .ok) ∧
+    (regNameOnly (run false init ops) a n).2 = .ok ∧
+    regPidEvents (regNameOnly (run false init ops) a n).1 a = pidEvents (run false init ops) (.register a n) := by
+  have I := inv_run (inv_init false) ops
+  generalize run false init ops = s at *
+  have hf : fresh s a = true := by
+    cases h : fresh s a with
+    | true => rfl
+    | false => simp [step, h] at hok
+  have hw : (whereIs s n).isSome = false := by
+    cases h : (whereIs s n).isSome with
+    | false => rfl
+    | true => simp [step, hf, h] at hok
+  have hp : s.pids.contains a = false := by
+    cases h : s.pids.contains a with
+    | false => rfl
+    | true =>
+      obtain ⟨x, hx, hid, _⟩ := I.pidHolder a (by simpa using h)
+      exact absurd hid (fresh_iff.mp hf x hx)
+  have hst : step false s (.register a n) =
+      ({ names := s.names ++ [(n, a)], pids := s.pids ++ [a], actors := s.actors ++ [⟨a, some n, false, 0, 0⟩] }, .ok) := by
+    simp [step, hf, hw]
+  have hn : regNameOnly s a n =
+      ({ names := s.names ++ [(n, a)], pids := s.pids, actors := s.actors ++ [⟨a, some n, false, 0, 0⟩] }, .ok) := by
+    simp [regNameOnly, hst]
+  have hin : inWindow { names := s.names ++ [(n, a)], pids := s.pids, actors := s.actors ++ [⟨a, some n, false, 0, 0⟩] } a = true := by
+    simp only [inWindow, getA, getA_append_fresh hf ⟨a, some n, false, 0, 0⟩ rfl, hp]
+    rfl
+  refine ⟨?_, ?_, ?_⟩
+  · rw [hn, hst]; simp [regPidOnly, hin]
+  · rw [hn]
+  · have hw' : whereIs s n = none := by
+      cases h : whereIs s n with
+      | none => rfl
+      | some b => rw [h] at hw; cases hw
+    rw [hn]; simp [regPidEvents, regPidOnly, hin, pidEvents, hf, hw']
+
+end
+
+
+/-! ### `Reg2` is `Reg3` with one caller per cell -/
+
+/-- every `Reg2` run (any interleaving; the pid monitors dropped) is the `Reg3` run of the same ops issued by
+thread 0 of each cell: same name table, same pid table, same name / remote flag / status word of every cell -/
+theorem reg2_is_reg3_with_one_caller (ops : List Reg2.Op) :
+    (Reg3.ofOps ops).all Reg3.single = true ∧
+    (∀ n, (Reg3.run Reg3.init (Reg3.ofOps ops)).names n = (Reg2.run Reg2.init ops).names n) ∧
+    (∀ a, (Reg3.run Reg3.init (Reg3.ofOps ops)).pids a = (Reg2.run Reg2.init ops).pids a) ∧
+    (∀ a, ((Reg3.run Reg3.init (Reg3.ofOps ops)).cell a).status = ((Reg2.run Reg2.init ops).act a).status ∧
+          ((Reg3.run Reg3.init (Reg3.ofOps ops)).cell a).name = ((Reg2.run Reg2.init ops).act a).name ∧
+          ((Reg3.run Reg3.init (Reg3.ofOps ops)).cell a).remote = ((Reg2.run Reg2.init ops).act a).remote) := by
+  have h := Reg3.Sim.init.run ops
+  exact ⟨Reg3.ofOps_single ops, h.names, h.pids, fun a => ⟨(h.cells a).2.2.1, (h.cells a).1, (h.cells a).2.1⟩⟩
+
+/-- … and `Reg2.Ordered` there is `Reg3.Disc` here: `whereIs_sound_conc` is the one-caller instance of
+`whereIs_sound_threads` (second proof of it, through `Reg3`) -/
+theorem whereIs_sound_conc_via_threads (ops : List Reg2.Op) (hord : Reg2.Ordered Reg2.init ops = true) (n a : Nat)
+    (h : (Reg2.run Reg2.init ops).names n = some a) :
+    Reg3.Disc Reg3.init (Reg3.ofOps ops) = true ∧ ((Reg2.run Reg2.init ops).act a).status ≠ Reg2.stopped := by
+  have hd := Reg3.disc_of_ordered_run Reg3.Sim.init Reg3.TInv.init Reg3.JInv.init Reg3.SInv.init ops hord
+  have hs := Reg3.Sim.init.run ops
+  refine ⟨hd, ?_⟩
+  rw [← (hs.cells a).2.2.1]
+  exact whereIs_sound_threads (Reg3.ofOps ops) hd n a (by rw [Reg3.whereIs, hs.names n]; exact h)
+
+
+/-! ### clauses 1 and 4 with several callers -/
+
+/-- whoever a lookup returns owns the name — constructed with it, local, between its own insert and the removal by
+whichever caller was elected (or the rollback) — and two such cells never share a name -/
+theorem name_has_one_owner_threads (ops : List Reg3.Op) (n a : Nat)
+    (h : Reg3.whereIs (Reg3.run Reg3.init ops) n = some a) :
+    ((Reg3.run Reg3.init ops).cell a).name = some n ∧ ((Reg3.run Reg3.init ops).cell a).remote = false ∧
+    ∀ b, ((Reg3.run Reg3.init ops).cell b).name = some n → Reg3.Holds (Reg3.run Reg3.init ops) b → b = a := by
+  have I := threads_invariant ops
+  have E := Reg3.EInv.run Reg3.TInv.init Reg3.SufInv.init Reg3.EInv.init ops
+  obtain ⟨h1, h2, _⟩ := I.owner n a h
+  refine ⟨h1, h2, fun b hb1 hb2 => ?_⟩
+  have := E b n hb1 hb2
+  rw [Reg3.whereIs] at h; rw [h] at this; exact (Option.some.inj this).symm
+
+/-- clause 4 with several callers: from the return of the constructor until SOME caller publishes `≥ Stopping`,
+`where_is` returns the cell — whatever any number of threads do with the cell meanwhile (`publish` of lower
+statuses, late calls that lose) and whatever other cells do under the same name -/
+theorem whereIs_visible_threads (ops : List Reg3.Op) (a n : Nat)
+    (hb : ((Reg3.run Reg3.init ops).cell a).born = true) (hl : ((Reg3.run Reg3.init ops).cell a).remote = false)
+    (hn : ((Reg3.run Reg3.init ops).cell a).name = some n)
+    (hst : ((Reg3.run Reg3.init ops).cell a).status < Reg2.stopping) :
+    Reg3.whereIs (Reg3.run Reg3.init ops) n = some a := by
+  have I := threads_invariant ops
+  have E := Reg3.EInv.run Reg3.TInv.init Reg3.SufInv.init Reg3.EInv.init ops
+  refine E a n hn ⟨hl, .inr (.inr ⟨I.bornCons a hb, ?_⟩)⟩
+  have hel : ((Reg3.run Reg3.init ops).cell a).el = none := by
+    cases he : ((Reg3.run Reg3.init ops).cell a).el with
+    | none => rfl
+    | some t =>
+      have := (I.elected a).2 (by rw [he]; simp)
+      exact absurd this (Nat.not_le.mpr hst)
+  simp [Reg3.elHasName, hel]
+
+end C10
+
+#print axioms C10.wherePid_sound_conc
+#print axioms C10.pid_free_after_exit_conc
+#print axioms C10.pid_visible_while_running
+#print axioms C10.wherePid_unsound_without_caller_order
+#print axioms C10.threads_invariant
+#print axioms C10.cleanup_elected_once_threads
+#print axioms C10.whereIs_sound_threads
+#print axioms C10.name_free_after_exit_threads
+#print axioms C10.wherePid_sound_threads
+#print axioms C10.status_order_not_enough_with_two_callers
+#print axioms C10.own_order_not_enough_with_two_callers
+#print axioms C10.weakest_hypothesis_exact
+#print axioms C10.disc_implies_weakest
+#print axioms C10.one_caller_own_order_is_enough
+#print axioms C10.stopping_call_sites_match_source
+#print axioms C10.window_halves_compose
+#print axioms C10.reg2_is_reg3_with_one_caller
+#print axioms C10.whereIs_sound_conc_via_threads
+#print axioms C10.name_has_one_owner_threads
+#print axioms C10.whereIs_visible_threads
